@@ -607,6 +607,26 @@ class HInterp:
                     except (AnalysisError, HUndecided, TypeError):
                         return None
                     return None
+                # count-down with the decrement FIRST: `while j > 0: j -= 1; BODY(j)` visits j = start-1, ..., 0
+                for cand, other, oo in ((l_, r_, o_), (r_, l_, flip.get(o_))):
+                    if isinstance(cand, ast.Name) and oo in (ast.Gt, ast.NotEq) and len(s.body) >= 2 and _step(s.body[0], cand.id) == -1:
+                        try:
+                            bzero = nf(self.ev(other, p)) == ("c", 0)
+                        except (AnalysisError, HUndecided, TypeError):
+                            bzero = False
+                        others0 = [x for b in s.body[1:] for x in ast.walk(b) if isinstance(x, ast.Name) and x.id == cand.id and isinstance(x.ctx, ast.Store)]
+                        esc0 = [x for x in ast.walk(s) if isinstance(x, (ast.Break, ast.Continue))]
+                        start0 = p.env.get(cand.id)
+                        if bzero and not others0 and not esc0 and start0 is not None and not isinstance(start0, (BytesV, BlocksV)):
+                            sname = "while__start%d" % id(s)
+                            p.env[sname] = start0
+                            sn = ast.Name(id=sname, ctx=ast.Load())
+                            rng = [ast.BinOp(left=sn, op=ast.Sub(), right=ast.Constant(value=1)), ast.Constant(value=-1), ast.Constant(value=-1)]
+                            f = ast.copy_location(ast.For(target=ast.Name(id=cand.id, ctx=ast.Store()),
+                                                          iter=ast.Call(func=ast.Name(id="range", ctx=ast.Load()), args=rng, keywords=[]),
+                                                          body=s.body[1:], orelse=[]), s)
+                            ast.fix_missing_locations(f)
+                            return self.loop(f, p)
                 for cand, other, oo in ((l_, r_, o_), (r_, l_, flip.get(o_))):
                     if isinstance(cand, ast.Name) and oo is not None and _step(last, cand.id) is not None:
                         iv, bound, o_ = cand.id, other, oo
@@ -878,6 +898,18 @@ class HInterp:
                     finally:
                         self.depth_glob -= 1
             raise HUndecided("name `%s`" % e.id)
+        if isinstance(e, ast.Tuple) and e.elts and all(isinstance(x, ast.Constant) and isinstance(x.value, int) and not isinstance(x.value, bool) for x in e.elts):
+            return ("consttuple", tuple(x.value for x in e.elts))
+        if isinstance(e, ast.Subscript) and not isinstance(e.slice, ast.Slice):
+            try:
+                b_ = self.ev(e.value, p)
+            except HUndecided:
+                b_ = None
+            if isinstance(b_, tuple) and b_ and b_[0] == "consttuple":
+                i_ = self.conc(self.ev(e.slice, p))
+                if i_ is not None and 0 <= i_ < len(b_[1]):
+                    return C(b_[1][i_])
+                raise HUndecided("index into a constant table `%s`" % unparse(e, 40))
         if isinstance(e, ast.BinOp):
             return self.binop(e.op, self.ev(e.left, p), self.ev(e.right, p))
         if isinstance(e, ast.Call):
